@@ -42,6 +42,11 @@ SHALLOW_FUNCS = {"copy.copy"}
 MUTABLE_CTORS = {"dict", "list", "set", "collections.defaultdict", "collections.OrderedDict", "collections.deque", "defaultdict", "OrderedDict",
                  "numpy.zeros", "numpy.ones", "numpy.array", "numpy.empty", "numpy.full", "numpy.asarray", "numpy.arange", "pandas.DataFrame",
                  "pandas.Series", "bytearray", "numpy.eye", "numpy.identity", "collections.Counter", "Counter", "deque", "weakref.WeakValueDictionary"}
+# method names that also exist on library objects (list, dict, ndarray, DataFrame, file): an untyped receiver with one of
+# these names is taken to be the library object, not a repository class
+LIBRARY_METHOD_NAMES = MUT_METHODS | VIEW_METHODS | {"copy", "write", "read", "keys", "values", "items", "index", "count", "format", "load", "save",
+                                                     "close", "open", "split", "join", "strip", "replace", "apply", "map", "merge", "round", "sum",
+                                                     "mean", "min", "max", "astype", "tolist", "to_numpy", "drop", "rename", "filter", "plot", "show"}
 CACHE_DECOS = {"functools.lru_cache", "functools.cache", "functools.cached_property", "lru_cache", "cache", "cached_property"}
 MAXPATH = 3
 
@@ -70,20 +75,36 @@ class Origin(tuple):
 
 
 class Effect:
-    def __init__(self, kind, fn, origin, node, how, via=None):
+    def __init__(self, kind, fn, origin, node, how, via=None, op="?", src=None):
         self.kind, self.fn, self.origin, self.node, self.how, self.via = kind, fn, origin, node, how, via
+        self.op, self.src = op, src or fn  # name-free description of the write and the function that contains it
 
     def key(self):
-        return (self.fn, self.kind, f"{self.origin.kind}:{self.origin.name}")
+        """(reporting function, kind, root object, function containing the write, kind of write) -- no local names, no lines"""
+        return (self.fn, self.kind, self.origin.root(), self.src, self.op)
+
+
+class _USet(list):
+    """insertion-ordered list without duplicates (keyed by name and node identity)"""
+
+    def append(self, item):
+        k = (item[0], id(item[1]))
+        if not hasattr(self, "_k"):
+            self._k = set()
+        if k not in self._k:
+            self._k.add(k)
+            list.append(self, item)
 
 
 class Summary:
     def __init__(self):
         self.ret = set()        # origins the result may be (rooted in own params / globals / defaults)
         self.mut = []           # Effect list (origin rooted in own params / globals / defaults)
-        self.greads = []        # (global name, node, returned?)
-        self.gwrites = []       # (global name, node)
+        self.greads = _USet()   # (global name, node)
+        self.gwrites = _USet()  # (global name, node)
         self.done = False
+        self._seen = set()
+        self.callees = set()
 
 
 class Effects:
@@ -139,15 +160,18 @@ class Effects:
         return self._methods.get(name, [])
 
     # ------------------------------------------------------------------------------------------ per-function analysis
-    def summary(self, q):
-        if q in self.summaries and self.summaries[q].done:
-            return self.summaries[q]
-        if q in self.stack:
-            return self.summaries.setdefault(q, Summary())  # recursion: current approximation
-        s = self.summaries.setdefault(q, Summary())
-        self.stack.append(q)
+    def summary(self, q, selfcls=None):
+        """`selfcls`: the class of the receiver when known (constructor call, self-call from a method analysed for that
+        class): self.method() then resolves through that class' MRO instead of every override in the hierarchy"""
+        key = (q, selfcls)
+        if key in self.summaries and self.summaries[key].done:
+            return self.summaries[key]
+        if key in self.stack:
+            return self.summaries.setdefault(key, Summary())  # recursion: current approximation
+        s = self.summaries.setdefault(key, Summary())
+        self.stack.append(key)
         try:
-            _FnPass(self, q, s).run()
+            _FnPass(self, q, s, selfcls).run()
         finally:
             self.stack.pop()
         s.done = True
@@ -155,10 +179,11 @@ class Effects:
 
 
 class _FnPass:
-    def __init__(self, eff, q, summ):
+    def __init__(self, eff, q, summ, selfcls=None):
         self.eff, self.prog, self.q, self.s = eff, eff.prog, q, summ
         self.m, self.fn = self.prog.func(q)
         self.owner = self.prog.enclosing_class(q)
+        self.selfcls = selfcls if (selfcls and self.owner and self.owner in self.prog.mro(selfcls)) else None
         a = self.fn.args
         self.params = [x.arg for x in a.posonlyargs + a.args + a.kwonlyargs]
         if a.vararg:
@@ -175,6 +200,8 @@ class _FnPass:
             if d is not None:
                 self.defaults[p.arg] = d
         self.arrayish_names = self._arrayish_evidence()
+        self.frameish_names = {n.value.id for n in ast.walk(self.fn) if isinstance(n, ast.Attribute) and isinstance(n.value, ast.Name)
+                               and n.attr in ("loc", "iloc", "columns", "iterrows", "itertuples", "sort_values", "reset_index", "groupby", "to_numpy")}
         self.globs = eff.mutable_globals()
 
     def _arrayish_evidence(self):
@@ -233,7 +260,7 @@ class _FnPass:
             if isinstance(t, ast.Name):
                 for o in env.get(t.id, ()) or self.name_origins(t, env):
                     if o.arrayish or o.kind in ("global", "default") or o.path:
-                        self.mutate(o, st, f"in-place `{_txt(st)}`")
+                        self.mutate(o, st, f"in-place `{_txt(st)}`", op="aug")
                 # numeric rebinding otherwise
             else:
                 self.store_target(t, env, st)
@@ -347,7 +374,7 @@ class _FnPass:
                 if o.shallow:
                     continue  # attribute of a shallow copy: the copy's own slot
                 if not (o.kind == "param" and self.is_method and o.name == self.params[0] and not o.path):
-                    self.mutate(o, st, f"attribute store `{_txt(t)} = ...`")
+                    self.mutate(o, st, f"attribute store `{_txt(t)} = ...`", op="setattr:" + t.attr)
             env[_txt(t)] = set(v)
             return
         if isinstance(t, ast.Subscript):
@@ -358,18 +385,22 @@ class _FnPass:
         """x[...] = v / x.a op= v / del x[...]"""
         base = t.value if isinstance(t, ast.Subscript) else t.value
         for o in self.av(base, env):
-            self.mutate(o, st, f"store `{_txt(t)[:60]}`")
+            self.mutate(o, st, f"store `{_txt(t)[:60]}`", op=_store_op(t))
 
     # ------------------------------------------------------------------------------------------------ effects
     def own_state(self, o):
         return o.kind == "param" and self.is_method and o.name == self.params[0]
 
-    def mutate(self, o, node, how, via=None):
+    def mutate(self, o, node, how, via=None, op="?", src=None):
         if o.kind == "param" and self.own_state(o):
             # the object's own state -- unless that state is known to alias something else (tracked through env keys)
             return
         kind = {"param": "E-param", "global": "E-global", "default": "E-default"}[o.kind]
-        self.s.mut.append(Effect(kind, self.q, o, node, how, via))
+        k_ = (kind, o[:3], id(node), op, src)
+        if k_ in self.s._seen:
+            return
+        self.s._seen.add(k_)
+        self.s.mut.append(Effect(kind, self.q, o, node, how, via, op, src or self.q))
         if o.kind == "global":
             self.s.gwrites.append((o.name, node))
 
@@ -419,9 +450,22 @@ class _FnPass:
             return {o.step(e.attr) for o in base}
         if isinstance(e, ast.Subscript):
             self.av(e.slice, env)
+            if isinstance(e.value, ast.Attribute) and e.value.attr in ("loc", "iloc", "at", "iat"):
+                self.av(e.value.value, env)
+                return set()  # pandas (copy-on-write): a selection never shares storage with the table
             base = self.av(e.value, env)
-            # basic indexing: a view of (numpy) / an element of (list, dict) the same storage
-            return {(o.view() if o.arrayish else o.step("[]")) for o in base}
+            basic = _basic_index(e.slice)
+            out = set()
+            for o in base:
+                if (o.path and o.path[-1] == "df") or (isinstance(e.value, ast.Name) and e.value.id in self.frameish_names):
+                    continue  # df[...] : a copy under copy-on-write
+                if o.arrayish:
+                    if basic:
+                        out.add(o.view())  # basic slicing: a view
+                    # integer / mask / fancy indexing: scalar or copy
+                else:
+                    out.add(o.step("[]"))  # element of a list / dict / unknown container
+            return out
         if isinstance(e, ast.Call):
             return self.call(e, env)
         if isinstance(e, ast.IfExp):
@@ -484,15 +528,17 @@ class _FnPass:
 
     # ------------------------------------------------------------------------------------------------ calls
     def callee_quals(self, node):
-        """resolved repo callees of a call (possibly several for a method on an untyped receiver)"""
+        """resolved repo callees of a call: ([(qual, receiver class or None)], how)"""
         f = node.func
         d = self.prog.resolve(self.m, f)
         if d:
             t = self.prog.repo_qual(d)
+            cls_of = None
             if t is None and d.startswith("cryocat."):
                 bits = d[len("cryocat."):].split(".")
                 if len(bits) >= 3 and self.prog.has(".".join(bits[:-1])):
-                    t = self.prog.find_method(".".join(bits[:-1]), bits[-1])
+                    cls_of = ".".join(bits[:-1])
+                    t = self.prog.find_method(cls_of, bits[-1])
             if t is not None:
                 try:
                     _, tn = self.prog.lookup(t)
@@ -500,31 +546,36 @@ class _FnPass:
                     tn = None
                 if isinstance(tn, ast.ClassDef):
                     init = self.prog.find_method(t, "__init__")
-                    return ([init] if init else []), "ctor"
-                return [t], "func" if not self._is_bound(t) else "unbound"
+                    return ([(init, t)] if init else []), "ctor"
+                own = self.prog.enclosing_class(t)
+                return [(t, cls_of or own)], "func"
             return [], "lib:" + d
         if isinstance(f, ast.Attribute):
             if isinstance(f.value, ast.Name) and f.value.id in ("self", "cls") and self.owner:
-                t = self.prog.find_method(self.owner, f.attr)
-                out = [t] if t else []
+                recv_cls = self.selfcls or self.owner
+                out = []
+                t = self.prog.find_method(recv_cls, f.attr)
+                if t:
+                    out.append((t, recv_cls))
                 for cq, cm, cn in self.prog.classes():
-                    if cq != self.owner and self.owner in self.prog.mro(cq) and self.prog.has(f"{cq}.{f.attr}"):
-                        out.append(f"{cq}.{f.attr}")
+                    if cq != recv_cls and recv_cls in self.prog.mro(cq) and self.prog.has(f"{cq}.{f.attr}"):
+                        out.append((f"{cq}.{f.attr}", cq))
                 if out:
                     return out, "method"
             cands = self.eff.methods_named(f.attr)
-            if cands and f.attr not in MUT_METHODS and f.attr not in VIEW_METHODS and f.attr not in ("copy", "write", "read", "update", "fill", "load", "keys",
-                                                                                                     "values", "items", "index", "count", "format"):
-                return cands, "method"
-            if cands and f.attr in ("write_out", "fill", "update_coordinates"):
-                return cands, "method"
+            if cands and f.attr not in LIBRARY_METHOD_NAMES:
+                return [(c, self.prog.enclosing_class(c)) for c in cands], "method"
             return [], "attr"
         if isinstance(f, ast.Name):
             parts = self.q.split(".")
             for i in range(len(parts), 0, -1):
                 cand = ".".join(parts[:i] + [f.id])
                 if self.prog.has(cand):
-                    return [cand], "func"
+                    try:
+                        self.prog.func(cand)
+                    except Exception:  # noqa
+                        continue
+                    return [(cand, None)], "func"
             return [], "name:" + f.id
         return [], "?"
 
@@ -542,10 +593,10 @@ class _FnPass:
             d = how[4:]
             if "out" in kw:
                 for o in kw["out"]:
-                    self.mutate(o, node, f"`out=` of {d}")
+                    self.mutate(o, node, f"`out=` of {d}", op="out:" + d)
             if d in MUT_FUNCS_ARG0 and args:
                 for o in args[0]:
-                    self.mutate(o, node, f"{d}(...) writes its first argument")
+                    self.mutate(o, node, f"{d}(...) writes its first argument", op="call:" + d)
             if d in VIEW_FUNCS and args:
                 return {o.view(arrayish=True) for o in args[0]}
             if d == "numpy.array" and args:
@@ -568,7 +619,7 @@ class _FnPass:
             if nm in ("setattr",) and args:
                 for o in args[0]:
                     if not o.shallow:
-                        self.mutate(o, node, "setattr(...)")
+                        self.mutate(o, node, "setattr(...)", op="setattr:*")
             return set()
         if not quals:
             # method on a library object / unknown receiver
@@ -578,7 +629,7 @@ class _FnPass:
                 if a in MUT_METHODS or inplace:
                     for o in recv:
                         if not (o.shallow and not o.path and a not in ()):
-                            self.mutate(o, node, f"mutating call `.{a}({'inplace=True' if inplace else '...'})`")
+                            self.mutate(o, node, f"mutating call `.{a}({'inplace=True' if inplace else '...'})`", op="call:." + a)
                         elif o.shallow:
                             pass
                     if a in ("setdefault", "pop", "get", "popitem"):
@@ -593,12 +644,13 @@ class _FnPass:
             return set()
         # ---- repo callees: apply summaries
         out = set()
-        for q in quals:
+        for q, scls in quals:
             try:
                 m2, fn2 = self.prog.func(q)
             except Exception:  # noqa
                 continue
-            s2 = self.eff.summary(q)
+            self.s.callees.add((q, scls))
+            s2 = self.eff.summary(q, scls)
             a2 = fn2.args
             pnames = [x.arg for x in a2.posonlyargs + a2.args]
             bound = {}
@@ -651,11 +703,7 @@ class _FnPass:
                 for o in mapo(ef.origin):
                     if o.shallow and not ef.origin.path and not o.path and ef.origin.kind == "param" and False:
                         continue
-                    self.mutate(o, node, ef.how, via=(ef.via or []) + [q] if isinstance(ef.via, list) else [q])
-            for g, n_ in s2.greads:
-                self.s.greads.append((g, node))
-            for g, n_ in s2.gwrites:
-                self.s.gwrites.append((g, node))
+                    self.mutate(o, node, ef.how, via=(ef.via or []) + [q], op=ef.op, src=ef.src)
             if how == "ctor":
                 continue
             for o in s2.ret:
@@ -674,6 +722,36 @@ class _FnPass:
         return isinstance(n, ast.Name) and n.id == "cls"
 
 
+def _basic_index(sl):
+    """numpy basic indexing (slices, integers constants, Ellipsis, None): the result is a view"""
+    parts = sl.elts if isinstance(sl, ast.Tuple) else [sl]
+    if not any(isinstance(p_, ast.Slice) for p_ in parts):
+        return False
+    for p_ in parts:
+        if isinstance(p_, ast.Slice):
+            continue
+        if isinstance(p_, ast.Constant) and (p_.value is None or p_.value is Ellipsis or isinstance(p_.value, int)):
+            continue
+        if isinstance(p_, ast.UnaryOp) and isinstance(p_.operand, ast.Constant):
+            continue
+        if isinstance(p_, ast.Name):
+            continue  # an index variable in a slice expression (x[:, i]) -- a view if i is an integer; keep (may-alias)
+        return False
+    return True
+
+
+def _store_op(t):
+    if isinstance(t, ast.Subscript):
+        sl = t.slice
+        parts = sl.elts if isinstance(sl, ast.Tuple) else [sl]
+        consts = [repr(p_.value) for p_ in parts if isinstance(p_, ast.Constant) and isinstance(p_.value, str)]
+        lists = [repr([e.value for e in p_.elts]) for p_ in parts if isinstance(p_, ast.List) and all(isinstance(e, ast.Constant) for e in p_.elts)]
+        return "setitem:" + (",".join(consts + lists) if consts or lists else "*")
+    if isinstance(t, ast.Attribute):
+        return "setattr:" + t.attr
+    return "store"
+
+
 def _terminates(body):
     return bool(body) and isinstance(body[-1], (ast.Return, ast.Raise, ast.Continue, ast.Break))
 
@@ -683,3 +761,167 @@ def _txt(n):
         return " ".join(ast.unparse(n).split())
     except Exception:  # noqa
         return "<?>"
+
+
+# ---------------------------------------------------------------------------------------------------- property-level report
+FILE_READERS = {"open", "pandas.read_csv", "pandas.read_table", "numpy.load", "numpy.loadtxt", "numpy.genfromtxt", "numpy.fromfile", "mrcfile.open",
+                "mrcfile.mmap", "mrcfile.read", "h5py.File", "json.load", "pickle.load", "emfile.read", "pandas.read_pickle", "starfile.read",
+                "yaml.safe_load", "pandas.read_hdf", "pandas.read_excel"}
+FILE_STATE = {"os.stat", "os.path.getmtime", "os.path.getsize", "os.path.getctime", "hashlib.md5", "hashlib.sha1", "hashlib.sha256"}
+
+
+class Report:
+    def __init__(self):
+        self.items = []      # dicts: kind, fn, root, src, op, node, module, message
+        self.undecided = []  # same shape; the rule cannot decide (-> UNRECOGNISED)
+        self.closure = set()
+        self.sites = 0
+
+
+def closure_of(eff, entries):
+    seen, todo = set(), [(q, None) for q in entries]
+    while todo:
+        q, sc = todo.pop()
+        if (q, sc) in seen:
+            continue
+        try:
+            s = eff.summary(q, sc)
+        except Exception:  # noqa
+            continue
+        seen.add((q, sc))
+        todo.extend(s.callees)
+    return seen
+
+
+def _reads_files(eff, q, sc, memo, depth=0):
+    k = (q, sc)
+    if k in memo:
+        return memo[k]
+    memo[k] = False
+    m, fn = eff.prog.func(q)
+    for n in ast.walk(fn):
+        if isinstance(n, ast.Call):
+            d = eff.prog.resolve(m, n.func) or (n.func.id if isinstance(n.func, ast.Name) else None)
+            if d in FILE_READERS:
+                memo[k] = True
+                return True
+    for (q2, sc2) in eff.summary(q, sc).callees:
+        if _reads_files(eff, q2, sc2, memo, depth + 1):
+            memo[k] = True
+            return True
+    return False
+
+
+def analyse(prog, entries, report_param_for=None):
+    """entries: qualified names of the property's functions.  -> Report"""
+    eff = Effects(prog)
+    rep = Report()
+    clo = closure_of(eff, entries)
+    rep.closure = {q for q, _ in clo}
+    report_param_for = set(report_param_for if report_param_for is not None else entries)
+    written = {}  # global -> [(fn, node)]
+    for (q, sc) in clo:
+        s = eff.summary(q, sc)
+        m, fn = prog.func(q)
+        for ef in s.mut:
+            rep.sites += 1
+            if ef.kind == "E-param" and q not in report_param_for:
+                continue
+            if ef.kind == "E-global" and not ef.origin.path and ef.op.startswith("setitem") and ef.src == q and not ef.via:
+                continue  # filling a module-level table: the hidden-state rule (E-state) decides whether reading it back is sound
+            rep.items.append({"kind": ef.kind, "fn": q, "root": ef.origin.root(), "src": ef.src, "op": ef.op, "node": ef.node, "module": m,
+                              "message": {"E-param": f"an in-place write reaches the caller's argument `{ef.origin.name}`"
+                                          + (f" (its part .{'.'.join(ef.origin.path)})" if ef.origin.path else "")
+                                          + ": the caller's object is changed by the call, so the next call on it sees another input",
+                                          "E-global": f"an in-place write reaches module/class-level state `{ef.origin.name}`: every later call sees the changed object",
+                                          "E-default": f"an in-place write reaches the mutable default value of parameter `{ef.origin.name}`: it is shared by all "
+                                                       "calls that rely on the default, so later results depend on earlier calls"}[ef.kind]
+                              + f" [{ef.how}" + (f", through {' <- '.join(ef.via)}" if ef.via else "") + "]"})
+        for g, n in s.gwrites:
+            written.setdefault(g, []).append((q, n))
+        for o in s.ret:
+            rep.sites += 1
+            if o.kind == "global":
+                rep.items.append({"kind": "E-share", "fn": q, "root": o.root(), "src": q, "op": "return", "node": fn, "module": m,
+                                  "message": f"the function returns an object that is (part of) module/class-level state `{o.name}`: every caller "
+                                             "receives the same mutable object, so a change made through one result shows up in all others"})
+        for d in fn.decorator_list:
+            dn = d.func if isinstance(d, ast.Call) else d
+            name = prog.resolve(m, dn) or (dn.id if isinstance(dn, ast.Name) else None)
+            if name in CACHE_DECOS:
+                rep.sites += 1
+                item = {"kind": "E-cache", "fn": q, "root": "decorator:" + name, "src": q, "op": "decorator", "node": fn, "module": m}
+                if _reads_files(eff, q, sc, {}):
+                    item["message"] = (f"{name} on a function whose result comes from a file: the result is remembered by argument (path) only, a "
+                                       "file rewritten since the first call is never read again")
+                    rep.items.append(item)
+                else:
+                    item["message"] = f"{name}: results are shared between calls; whether they are immutable cannot be decided from the source"
+                    rep.undecided.append(item)
+    # hidden state: reads of written module/class-level containers
+    globs = eff.mutable_globals()
+    memo = {}
+    for (q, sc) in clo:
+        s = eff.summary(q, sc)
+        m, fn = prog.func(q)
+        own_reads = [(g, n) for g, n in s.greads if any(n is x for x in ast.walk(fn))]
+        for g in sorted({g for g, _ in own_reads}):
+            rep.sites += 1
+            if g not in written:
+                continue
+            node = [n for gg, n in own_reads if gg == g][0]
+            item = {"kind": "E-state", "fn": q, "root": "global:" + g, "src": q, "op": "read", "node": node, "module": m}
+            if _reads_files(eff, q, sc, memo):
+                uses_state = any(isinstance(n, ast.Call) and (prog.resolve(m, n.func) in FILE_STATE) for n in ast.walk(fn)) or \
+                    any(isinstance(n, ast.Attribute) and n.attr in ("st_mtime", "st_mtime_ns", "st_size") for n in ast.walk(fn))
+                if uses_state:
+                    item["message"] = f"`{g}` caches file content and is validated against the file's state; the validation cannot be decided here"
+                    rep.undecided.append(item)
+                else:
+                    item["message"] = (f"the result of a function that reads a file may come from the module/class-level container `{g}` (written by "
+                                       f"{sorted({w for w, _ in written[g]})}): a file rewritten since it was first read is not noticed, and two spellings "
+                                       "of one path are different keys -- the result depends on the call history")
+                    rep.items.append(item)
+                continue
+            # memo of computed values: the key must mention every parameter
+            missing = _memo_key_missing(fn, g.split(".")[-1])
+            if missing is None:
+                item["message"] = (f"the function reads module/class-level state `{g}` that other calls write ({sorted({w for w, _ in written[g]})}): "
+                                   "its result depends on the call history")
+                rep.items.append(item)
+            elif missing:
+                item["message"] = (f"memoised result in `{g}`: the key does not contain parameter(s) {sorted(missing)}; a later call that differs only in "
+                                   "them receives the result computed for the earlier values")
+                rep.items.append(item)
+            # complete key: sharing of the cached object is reported by E-share / E-global
+    return rep
+
+
+def _memo_key_missing(fn, gname):
+    """for the pattern  G[key] = value  inside `fn`: parameters of fn that do not occur in `key` (through local definitions);
+    None when the accesses to G are not of the memo form"""
+    stores = [n for n in ast.walk(fn) if isinstance(n, ast.Assign) and any(
+        isinstance(t, ast.Subscript) and isinstance(t.value, (ast.Name, ast.Attribute)) and _txt(t.value).split(".")[-1] == gname for t in n.targets)]
+    if not stores:
+        return None
+    params = [a.arg for a in fn.args.posonlyargs + fn.args.args + fn.args.kwonlyargs if a.arg not in ("self", "cls")]
+    defs = {}
+    for n in ast.walk(fn):
+        if isinstance(n, ast.Assign) and len(n.targets) == 1 and isinstance(n.targets[0], ast.Name):
+            defs.setdefault(n.targets[0].id, []).append(n.value)
+    missing = set(params)
+    for st in stores:
+        for t in st.targets:
+            if not isinstance(t, ast.Subscript):
+                continue
+            seen, todo = set(), [x.id for x in ast.walk(t.slice) if isinstance(x, ast.Name)]
+            while todo:
+                nm = todo.pop()
+                if nm in seen:
+                    continue
+                seen.add(nm)
+                for v in defs.get(nm, []):
+                    todo.extend(x.id for x in ast.walk(v) if isinstance(x, ast.Name))
+            missing -= seen
+    used = {x.id for x in ast.walk(fn) if isinstance(x, ast.Name)}
+    return {p for p in missing if p in used}
